@@ -82,6 +82,35 @@ type zzG01Cfg struct {
 	// names, see zzG01NetSets.
 	Nets    string     `json:"nets"`
 	Blocked [][]string `json:"blocked"`
+	// DNS64 is "off", "wkp" (enabled without prefixes: the Well-Known Prefix)
+	// or "custom" (enabled with zzG01Prefs64).
+	DNS64 string `json:"dns64"`
+}
+
+// zzG01Prefs64 are the custom DNS64 prefixes.
+var zzG01Prefs64 = []netip.Prefix{
+	netip.MustParsePrefix("2001:67c:27e4:1064::/96"), netip.MustParsePrefix("2001:67c:27e4:642::/96"),
+}
+
+var zzG01WKP = netip.MustParsePrefix("64:ff9b::/96")
+
+// zzG01Excl are the exclusion prefixes of a DNS64 mode.
+func zzG01Excl(mode string) (prefs []netip.Prefix) {
+	switch mode {
+	case "wkp":
+		return []netip.Prefix{zzG01WKP}
+	case "custom":
+		return zzG01Prefs64
+	default:
+		return nil
+	}
+}
+
+// zzG01UpScript is what the general upstream answers, in tokens (direction A).
+type zzG01UpScript struct {
+	NX bool     `json:"nx"`
+	A6 []string `json:"a6"`
+	A4 []string `json:"a4"`
 }
 
 // zzG01Rev is what the harness knows about a question name as a reverse name.
@@ -89,6 +118,7 @@ type zzG01Rev struct {
 	Ok   bool   `json:"ok"`
 	Priv bool   `json:"priv"`
 	A    string `json:"a"`
+	N64  bool   `json:"n64"`
 }
 
 type zzG01Req struct {
@@ -100,6 +130,8 @@ type zzG01Req struct {
 	Cli   string   `json:"cli"`
 	CPriv bool     `json:"cpriv"`
 	Rev   zzG01Rev `json:"rev"`
+	// Up is the upstream's script in tokens (direction A only).
+	Up *zzG01UpScript `json:"up,omitempty"`
 }
 
 type zzG01Out struct {
@@ -125,6 +157,8 @@ const (
 var zzG01Addrs = map[string]string{
 	"a1": "192.168.10.5", "a2": "192.168.10.99", "a3": "10.0.0.7", "a4": "8.8.4.4",
 	"in": "192.168.10.77", "alt": "127.0.7.9", "pub": "93.184.216.34",
+	"o1": "2001:db8::77", "w1": "64:ff9b::102:304", "c1": "2001:67c:27e4:1064::102:305", "c2": "2001:67c:27e4:642::102:306",
+	"s4": "203.0.113.77",
 }
 
 var zzG01Qtypes = map[string]uint16{
@@ -209,6 +243,17 @@ type zzG01Up struct {
 	tag   string
 	mu    sync.Mutex
 	calls []dns.Question
+	// script, if not nil, replaces the sentinel answers for A and AAAA.
+	script *zzG01Script
+	// answered keeps the answer given per question type since the last take.
+	answered map[uint16][]dns.RR
+}
+
+// zzG01Script is what an upstream answers for A and AAAA questions.
+type zzG01Script struct {
+	nx bool
+	a6 []netip.Addr
+	a4 []netip.Addr
 }
 
 func zzG01Sentinel(tag string, q dns.Question) (rr dns.RR) {
@@ -242,10 +287,41 @@ func (u *zzG01Up) Exchange(req *dns.Msg) (resp *dns.Msg, err error) {
 	u.mu.Lock()
 	defer u.mu.Unlock()
 
-	u.calls = append(u.calls, req.Question[0])
+	q := req.Question[0]
+	u.calls = append(u.calls, q)
 	resp = (&dns.Msg{}).SetReply(req)
 	resp.RecursionAvailable = true
-	resp.Answer = []dns.RR{zzG01Sentinel(u.tag, req.Question[0])}
+	switch {
+	case u.script != nil && q.Qtype == dns.TypeAAAA:
+		if u.script.nx {
+			resp.Rcode = dns.RcodeNameError
+		}
+
+		for _, a := range u.script.a6 {
+			resp.Answer = append(resp.Answer, &dns.AAAA{
+				Hdr:  dns.RR_Header{Name: q.Name, Rrtype: dns.TypeAAAA, Class: dns.ClassINET, Ttl: 300},
+				AAAA: a.AsSlice(),
+			})
+		}
+	case u.script != nil && q.Qtype == dns.TypeA:
+		for _, a := range u.script.a4 {
+			resp.Answer = append(resp.Answer, &dns.A{
+				Hdr: dns.RR_Header{Name: q.Name, Rrtype: dns.TypeA, Class: dns.ClassINET, Ttl: 300},
+				A:   a.AsSlice(),
+			})
+		}
+	default:
+		resp.Answer = []dns.RR{zzG01Sentinel(u.tag, q)}
+	}
+
+	if u.answered == nil {
+		u.answered = map[uint16][]dns.RR{}
+	}
+
+	u.answered[q.Qtype] = nil
+	for _, rr := range resp.Answer {
+		u.answered[q.Qtype] = append(u.answered[q.Qtype], dns.Copy(rr))
+	}
 
 	return resp, nil
 }
@@ -258,8 +334,25 @@ func (u *zzG01Up) take() (calls []dns.Question) {
 	defer u.mu.Unlock()
 
 	calls, u.calls = u.calls, nil
+	u.answered = nil
 
 	return calls
+}
+
+// answerTo returns the answer section given to a question of type qt since
+// the last take.
+func (u *zzG01Up) answerTo(qt uint16) (rrs []dns.RR) {
+	u.mu.Lock()
+	defer u.mu.Unlock()
+
+	return u.answered[qt]
+}
+
+func (u *zzG01Up) setScript(sc *zzG01Script) {
+	u.mu.Lock()
+	defer u.mu.Unlock()
+
+	u.script = sc
 }
 
 // zzG01QLog counts what the server writes to the query log.
@@ -354,8 +447,13 @@ type zzG01Live struct {
 	// binds is the number of addresses every encrypted endpoint is bound to.
 	binds int
 
+	// pref64 is the prefix AAAA records are synthesised under, if DNS64 is on.
+	pref64 netip.Prefix
+
 	cur      string
 	prepared int
+	// hist is the sequence of configurations that were applied with a Prepare.
+	hist []*zzG01Cfg
 	n        uint16
 	udp      bool
 }
@@ -459,6 +557,8 @@ func (l *zzG01Live) serverConfig(cfg *zzG01Cfg) (sc *ServerConfig) {
 		},
 		UsePrivateRDNS:    cfg.PrivPTR,
 		LocalPTRResolvers: []string{"192.0.2.54:53"},
+		UseDNS64:          cfg.DNS64 == "wkp" || cfg.DNS64 == "custom",
+		DNS64Prefixes:     map[string][]netip.Prefix{"custom": zzG01Prefs64}[cfg.DNS64],
 		ConfigModified:    func() {},
 		ServePlainDNS:     true,
 	}
@@ -469,7 +569,7 @@ func (l *zzG01Live) serverConfig(cfg *zzG01Cfg) (sc *ServerConfig) {
 func (l *zzG01Live) configure(cfg *zzG01Cfg, leases map[string]netip.Addr) (err error) {
 	l.dhcp.set(cfg.DHCP, leases)
 
-	key := fmt.Sprintf("%v|%v|%v|%+v|%v|%d", cfg.AAAAOff, cfg.RefuseAny, cfg.DDR, cfg.TLS, cfg.PrivPTR, l.binds)
+	key := fmt.Sprintf("%v|%v|%v|%+v|%v|%d|%s", cfg.AAAAOff, cfg.RefuseAny, cfg.DDR, cfg.TLS, cfg.PrivPTR, l.binds, cfg.DNS64)
 	if key == l.cur {
 		return nil
 	}
@@ -494,8 +594,15 @@ func (l *zzG01Live) configure(cfg *zzG01Cfg, leases map[string]netip.Addr) (err 
 		l.srv.conf.PrivateRDNSUpstreamConfig.Upstreams = []upstream.Upstream{l.priv}
 	}
 
+	l.pref64 = netip.Prefix{}
+	if ex := zzG01Excl(cfg.DNS64); len(ex) > 0 {
+		l.pref64 = ex[0]
+	}
+
 	l.cur = key
 	l.prepared++
+	cc := *cfg
+	l.hist = append(l.hist, &cc)
 
 	return nil
 }
@@ -621,12 +728,18 @@ func zzG01NoTTL(rr dns.RR) (s string) {
 // abs projects the observation onto the spec's outcome vocabulary.
 func (l *zzG01Live) abs(fqdn string, qt uint16, res *dns.Msg) (out zzG01Out) {
 	out.V = []string{}
+	upAns := map[string][]dns.RR{"gen": l.gen.answerTo(qt), "priv": l.priv.answerTo(qt)}
 	gen, priv := l.gen.take(), l.priv.take()
 	switch {
 	case len(gen) == 0 && len(priv) == 0:
 		out.Fwd = "none"
 	case len(gen) == 1 && len(priv) == 0:
 		out.Fwd = "gen"
+	case len(gen) == 2 && len(priv) == 0 && qt == dns.TypeAAAA && gen[0].Qtype == qt && gen[1].Qtype == dns.TypeA &&
+		strings.EqualFold(gen[1].Name, fqdn):
+		// The question, then the A records of the same name (DNS64).
+		out.Fwd = "gen+a"
+		gen = gen[:1]
 	case len(gen) == 0 && len(priv) == 1:
 		out.Fwd = "priv"
 	default:
@@ -684,10 +797,15 @@ func (l *zzG01Live) abs(fqdn string, qt uint16, res *dns.Msg) (out zzG01Out) {
 
 	// The upstream's answer, intact?
 	for _, tag := range []string{"gen", "priv"} {
-		want := zzG01Sentinel(tag, dns.Question{Name: fqdn, Qtype: qt, Qclass: dns.ClassINET})
-		if len(res.Answer) == 1 && zzG01NoTTL(res.Answer[0]) == zzG01NoTTL(want) {
+		want := upAns[tag]
+		same := len(want) > 0 && len(want) == len(res.Answer)
+		for i := 0; same && i < len(want); i++ {
+			same = zzG01NoTTL(res.Answer[i]) == zzG01NoTTL(want[i])
+		}
+
+		if same {
 			out.C = "up"
-			if out.Fwd != tag {
+			if !strings.HasPrefix(out.Fwd, tag) {
 				out.C = "other:up-from-" + tag
 			}
 
@@ -722,9 +840,16 @@ func (l *zzG01Live) abs(fqdn string, qt uint16, res *dns.Msg) (out zzG01Out) {
 			}
 		case *dns.AAAA:
 			a, _ := netip.AddrFromSlice(rr.AAAA)
-			if a.IsUnspecified() {
+			switch {
+			case a.IsUnspecified():
 				kinds["null"] = true
-			} else {
+			case l.pref64.IsValid() && l.pref64.Contains(a):
+				// An address under the synthesis prefix: name the IPv4
+				// address it maps.
+				b := a.As16()
+				kinds["aaaa"] = true
+				add("syn:" + netip.AddrFrom4([4]byte(b[12:])).String())
+			default:
 				kinds["aaaa"] = true
 				add(a.String())
 			}
@@ -746,7 +871,7 @@ func (l *zzG01Live) abs(fqdn string, qt uint16, res *dns.Msg) (out zzG01Out) {
 
 	sort.Strings(ks)
 	out.C = strings.Join(ks, "+")
-	if (out.C == "a" && qt != dns.TypeA) || (out.C == "ptr" && qt != dns.TypePTR) || (out.C == "svcb" && qt != dns.TypeSVCB) {
+	if (out.C == "aaaa" && qt != dns.TypeAAAA) || (out.C == "a" && qt != dns.TypeA) || (out.C == "ptr" && qt != dns.TypePTR) || (out.C == "svcb" && qt != dns.TypeSVCB) {
 		out.C += ":for-" + dns.TypeToString[qt]
 	}
 
@@ -798,6 +923,9 @@ type zzG01Vec struct {
 	Tab  [][]zzG01Out `json:"tab"`
 	Set  string       `json:"set"`
 	Idx  []int        `json:"idx"`
+	// Pre, if not empty, is a history: the configurations a fresh server is
+	// taken through before Cfg (replay of a history-dependent finding).
+	Pre []zzG01Cfg `json:"pre"`
 }
 
 func zzG01GroupKey(cfg *zzG01Cfg) (k string) {
@@ -825,12 +953,37 @@ func zzG01TokenLeases(cfg *zzG01Cfg) (m map[string]netip.Addr) {
 	return m
 }
 
+// zzG01TokenScript turns the upstream script of a direction-A request into
+// addresses.
+func zzG01TokenScript(up *zzG01UpScript) (sc *zzG01Script) {
+	if up == nil {
+		return nil
+	}
+
+	sc = &zzG01Script{nx: up.NX}
+	for _, t := range up.A6 {
+		sc.a6 = append(sc.a6, netip.MustParseAddr(zzG01Addrs[t]))
+	}
+
+	for _, t := range up.A4 {
+		sc.a4 = append(sc.a4, netip.MustParseAddr(zzG01Addrs[t]))
+	}
+
+	return sc
+}
+
 // zzG01Concretise maps the tokens of a direction-A outcome to the concrete
 // values the harness observes.
 func zzG01Concretise(cfg *zzG01Cfg, o zzG01Out) (c zzG01Out) {
 	c = zzG01Out{C: o.C, Fwd: o.Fwd, Log: o.Log, V: []string{}}
 	for _, v := range o.V {
 		switch o.C {
+		case "aaaa":
+			if t, ok := strings.CutPrefix(v, "syn:"); ok {
+				c.V = append(c.V, "syn:"+zzG01Addrs[t])
+			} else {
+				c.V = append(c.V, zzG01Addrs[v])
+			}
 		case "a":
 			c.V = append(c.V, zzG01Addrs[v])
 		case "ptr":
@@ -881,7 +1034,7 @@ func TestZZVerifG01Replay(t *testing.T) {
 		}
 	}()
 
-	n, bad, flaky, viaUDP := 0, 0, 0, 0
+	n, bad, flaky, viaUDP, shrunk := 0, 0, 0, 0, 0
 	for pass := 0; pass < passes; pass++ {
 		rng.Shuffle(len(cfgs), func(i, j int) { cfgs[i], cfgs[j] = cfgs[j], cfgs[i] })
 		for _, v := range cfgs {
@@ -892,6 +1045,10 @@ func TestZZVerifG01Replay(t *testing.T) {
 			}
 
 			gk := zzG01GroupKey(cfg)
+			if len(v.Pre) > 0 {
+				gk = fmt.Sprintf("replay %p", v)
+			}
+
 			live := lives[gk]
 			if live == nil {
 				var err error
@@ -901,6 +1058,11 @@ func TestZZVerifG01Replay(t *testing.T) {
 				}
 
 				lives[gk] = live
+				for i := range v.Pre {
+					if err = live.configure(&v.Pre[i], zzG01TokenLeases(&v.Pre[i])); err != nil {
+						t.Fatalf("history: %v", err)
+					}
+				}
 			}
 
 			if err := live.configure(cfg, zzG01TokenLeases(cfg)); err != nil {
@@ -927,8 +1089,15 @@ func TestZZVerifG01Replay(t *testing.T) {
 				}
 
 				cli := netip.MustParseAddr(zzG01Addrs[req.Cli])
+				script := zzG01TokenScript(req.Up)
 				run := func(l *zzG01Live, r *rand.Rand, u bool) (got zzG01Out, conc string) {
-					return l.ask(zzG01Spell(req.Name, req.Canon, r), zzG01Qtypes[req.Qt], cli, u)
+					l.gen.setScript(script)
+					got, conc = l.ask(zzG01Spell(req.Name, req.Canon, r), zzG01Qtypes[req.Qt], cli, u)
+					if req.Up != nil {
+						conc += fmt.Sprintf(" (upstream: nx=%v aaaa=%v a=%v)", script.nx, script.a6, script.a4)
+					}
+
+					return got, conc
 				}
 
 				n++
@@ -965,6 +1134,32 @@ func TestZZVerifG01Replay(t *testing.T) {
 					bad++
 					rec["kind"], rec["got"], rec["concrete"] = "bad", got2, conc2
 					rec["how"] = fmt.Sprintf("history-dependent: on the live server after %d reconfigurations; admissible alone on a fresh server", live.prepared)
+					if shrunk < 3 {
+						// Shrink the history: one earlier configuration, then
+						// this one, on a fresh server.
+						shrunk++
+						for i := len(live.hist) - 2; i >= 0 && i >= len(live.hist)-400; i-- {
+							f2, err2 := zzG01NewLive(t, cfg.Suffix, cfg.Nets, cfg.Blocked)
+							if err2 != nil {
+								break
+							}
+
+							var got4 zzG01Out
+							ok := f2.configure(live.hist[i], zzG01TokenLeases(live.hist[i])) == nil &&
+								f2.configure(cfg, zzG01TokenLeases(cfg)) == nil
+							if ok {
+								got4, _ = run(f2, rand.New(rand.NewSource(1)), false)
+							}
+
+							f2.close()
+							if ok && !zzG01Admissible(want, got4) {
+								rec["history"] = []*zzG01Cfg{live.hist[i]}
+								rec["how"] = "history-dependent: on a fresh server that had the configuration 'history' before this one; admissible alone on a fresh server"
+
+								break
+							}
+						}
+					}
 				default:
 					flaky++
 					rec["kind"], rec["got"], rec["concrete"] = "flaky", got, conc
@@ -1038,6 +1233,12 @@ var (
 		"100.64.0.5", "169.253.1.1",
 	}
 	zzG01PubPool6 = []string{"2606:4700::1111", "fc00::1", "2001:db9::1"}
+	// Addresses under and next to the DNS64 prefixes.
+	zzG01Pool64 = []string{
+		"64:ff9b::102:304", "64:ff9b::808:808", "2001:67c:27e4:1064::102:305", "2001:67c:27e4:1064::a00:1",
+		"2001:67c:27e4:642::c0a8:1", "64:ff9b:1::1", "2001:67c:27e4:1065::1", "2001:db8::77", "2606:4700::6810:84e5",
+	}
+	zzG01Pool4 = []string{"203.0.113.77", "198.51.100.4", "8.8.8.8"}
 	zzG01Hosts    = []string{"printer", "nas", "tv", "my-phone", "host-1", "x", "ghost", "phantom"}
 	zzG01Suffixes = [][]string{{"lan"}, {"home", "arpa"}, {"internal"}, {"corp", "example", "com"}, {"local-net"}}
 )
@@ -1050,6 +1251,7 @@ func zzG01RandCfg(rng *rand.Rand, base *zzG01Cfg) (cfg *zzG01Cfg, leases map[str
 	cfg = &c
 	cfg.AAAAOff, cfg.RefuseAny, cfg.DDR = rng.Intn(3) == 0, rng.Intn(2) == 0, rng.Intn(3) != 0
 	cfg.DHCP, cfg.PrivPTR = rng.Intn(4) != 0, rng.Intn(2) == 0
+	cfg.DNS64 = []string{"off", "off", "off", "wkp", "custom"}[rng.Intn(5)]
 	cfg.TLS = zzG01TLS{}
 	if rng.Intn(4) != 0 {
 		cfg.TLS.On, cfg.TLS.CertIP = true, rng.Intn(2) == 0
@@ -1149,7 +1351,9 @@ func zzG01RandName(rng *rand.Rand, cfg *zzG01Cfg) (name []string, rev zzG01Rev) 
 	case 6, 7, 8, 9:
 		// Reverse names.
 		var a netip.Addr
-		switch rng.Intn(7) {
+		switch rng.Intn(8) {
+		case 7:
+			a = netip.MustParseAddr(zzG01Pick(rng, zzG01Pool64))
 		case 0, 1:
 			if len(cfg.Leases) > 0 {
 				a = netip.MustParseAddr(cfg.Leases[rng.Intn(len(cfg.Leases))].A)
@@ -1175,11 +1379,74 @@ func zzG01RandName(rng *rand.Rand, cfg *zzG01Cfg) (name []string, rev zzG01Rev) 
 			return strings.Split(z[0], "."), zzG01Rev{Ok: true, Priv: zzG01InNets(cfg.Nets, za), A: "zone " + z[0]}
 		}
 
-		return zzG01Reverse(a), zzG01Rev{Ok: true, Priv: zzG01InNets(cfg.Nets, a), A: a.String()}
+		return zzG01Reverse(a), zzG01Rev{Ok: true, Priv: zzG01InNets(cfg.Nets, a), A: a.String(), N64: zzG01Under64(cfg.DNS64, a)}
 	default:
 		return [][]string{{"plain", "example"}, {"example", "org"}, {"arpa"}, {"in-addr", "arpa"}, {"net"},
 			{"lan", "example", "org"}, {"www", "plain", "example"}}[rng.Intn(7)], rev
 	}
+}
+
+// zzG01InPrefs is the harness's own prefix test.
+func zzG01InPrefs(prefs []netip.Prefix, a netip.Addr) (ok bool) {
+	for _, p := range prefs {
+		if p.Contains(a) {
+			return true
+		}
+	}
+
+	return false
+}
+
+// zzG01Under64 says whether a PTR question for a concerns DNS64: the address
+// lies under a configured prefix or under the Well-Known Prefix.
+func zzG01Under64(mode string, a netip.Addr) (ok bool) {
+	return mode != "off" && (zzG01InPrefs(zzG01Excl(mode), a) || zzG01WKP.Contains(a))
+}
+
+// zzG01TraceUp is the upstream's script as logged for TraceDnsFront.tla.
+type zzG01TraceUp struct {
+	NX bool             `json:"nx"`
+	A6 []map[string]any `json:"a6"`
+	A4 []string         `json:"a4"`
+}
+
+// zzG01RandScript draws what the general upstream answers.
+func zzG01RandScript(rng *rand.Rand, mode string) (sc *zzG01Script, tu zzG01TraceUp) {
+	sc = &zzG01Script{}
+	tu = zzG01TraceUp{A6: []map[string]any{}, A4: []string{}}
+	if rng.Intn(3) == 0 {
+		// The sentinel answers.
+		sc.a6, sc.a4 = []netip.Addr{netip.MustParseAddr("2001:db8::77")}, []netip.Addr{netip.MustParseAddr("203.0.113.77")}
+	} else {
+		sc.nx = rng.Intn(8) == 0
+		seen := map[string]bool{}
+		for i, n := 0, rng.Intn(4); i < n && !sc.nx; i++ {
+			a := zzG01Pick(rng, zzG01Pool64)
+			if !seen[a] {
+				seen[a] = true
+				sc.a6 = append(sc.a6, netip.MustParseAddr(a))
+			}
+		}
+
+		for i, n := 0, rng.Intn(3); i < n; i++ {
+			a := zzG01Pick(rng, zzG01Pool4)
+			if !seen[a] {
+				seen[a] = true
+				sc.a4 = append(sc.a4, netip.MustParseAddr(a))
+			}
+		}
+	}
+
+	tu.NX = sc.nx
+	for _, a := range sc.a6 {
+		tu.A6 = append(tu.A6, map[string]any{"a": a.String(), "excl": zzG01InPrefs(zzG01Excl(mode), a)})
+	}
+
+	for _, a := range sc.a4 {
+		tu.A4 = append(tu.A4, a.String())
+	}
+
+	return sc, tu
 }
 
 // TestZZVerifG01Trace is direction B: a seeded random run over a larger
@@ -1242,6 +1509,8 @@ func TestZZVerifG01Trace(t *testing.T) {
 				}
 
 				cli := netip.MustParseAddr(zzG01Pick(rng, pool))
+				script, tup := zzG01RandScript(rng, cfg.DNS64)
+				live.gen.setScript(script)
 				got, conc := live.ask(fqdn, zzG01Qtypes[qt], cli, false)
 				if got.C == "ptr" {
 					tail := "." + strings.Join(cfg.Suffix, ".") + "."
@@ -1254,7 +1523,8 @@ func TestZZVerifG01Trace(t *testing.T) {
 
 				w.put(map[string]any{
 					"cfg": cfg,
-					"req": zzG01Req{Name: name, Canon: canon, Qt: qt, Cli: cli.String(), CPriv: zzG01InNets(cfg.Nets, cli), Rev: rev},
+					"req": map[string]any{"name": name, "canon": canon, "qt": qt, "cli": cli.String(),
+						"cpriv": zzG01InNets(cfg.Nets, cli), "rev": rev, "up": tup},
 					"out": got, "concrete": conc,
 				})
 			}
